@@ -105,9 +105,9 @@ pub struct Gate {
 struct GateState {
     turn: Option<u8>,
     order: std::collections::VecDeque<u8>,
-    done: [bool; 2],
+    done: Vec<bool>,
     /// waiting for a lock the other caller holds
-    blocked: [bool; 2],
+    blocked: Vec<bool>,
     switches: u32,
     /// bumped on every hand-over: lets a waiter tell a holder that is making progress from one that
     /// is really blocked inside a primitive the simulator does not intercept
@@ -130,8 +130,12 @@ thread_local! {
 
 impl Gate {
     pub fn new(order: &[u8]) -> std::sync::Arc<Gate> {
+        Gate::new_n(order, 2)
+    }
+    /// `n` simulated caller threads (2..=26), of which exactly one is runnable at any time.
+    pub fn new_n(order: &[u8], n: usize) -> std::sync::Arc<Gate> {
         let g = Gate {
-            m: std::sync::Mutex::new(GateState { turn: None, order: order.iter().copied().collect(), done: [false; 2], blocked: [false; 2], switches: 0, epoch: 0, forced: 0, trace: vec![], stalled: 0 }),
+            m: std::sync::Mutex::new(GateState { turn: None, order: order.iter().copied().collect(), done: vec![false; n], blocked: vec![false; n], switches: 0, epoch: 0, forced: 0, trace: vec![], stalled: 0 }),
             cv: std::sync::Condvar::new(),
         };
         {
@@ -144,9 +148,9 @@ impl Gate {
     fn pick(st: &mut GateState) -> Option<u8> {
         loop {
             match st.order.pop_front() {
-                Some(t) if t < 2 && !st.done[t as usize] => return Some(t),
+                Some(t) if (t as usize) < st.done.len() && !st.done[t as usize] => return Some(t),
                 Some(_) => continue,
-                None => return (0..2u8).find(|t| !st.done[*t as usize]),
+                None => return (0..st.done.len() as u8).find(|t| !st.done[*t as usize]),
             }
         }
     }
@@ -201,17 +205,19 @@ impl Gate {
     /// callers have kept finding their locks taken, turn after turn, without anybody getting past a
     /// primitive in between.
     fn yield_blocked(&self, me: u8) -> Result<(), ()> {
-        let other = 1 - me;
         {
             let mut st = self.m.lock().unwrap();
+            let n = st.done.len();
             st.stalled += 1;
-            if st.stalled > 4 {
+            if st.stalled as usize > 2 * n {
                 return Err(());
             }
-            if st.done[other as usize] {
-                // nobody else can release it; a couple of retries, then it is a deadlock with oneself
-                return Ok(());
-            }
+            // the next caller in cyclic order that has not finished
+            let other = match (1..n).map(|k| ((me as usize + k) % n) as u8).find(|t| !st.done[*t as usize]) {
+                Some(o) => o,
+                // nobody else can release it; a few retries, then it is a deadlock with oneself
+                None => return Ok(()),
+            };
             st.blocked[me as usize] = true;
             st.turn = Some(other);
             st.switches += 1;
@@ -253,7 +259,10 @@ pub fn install_sched_hooks() {
         match g {
             None => false,
             Some((g, me)) => {
-                if g.yield_blocked(me).is_err() {
+                crate::runner::watch_exempt();
+                let r = g.yield_blocked(me);
+                crate::runner::touch();
+                if r.is_err() {
                     std::panic::panic_any(SimDeadlock);
                 }
                 true
@@ -273,7 +282,10 @@ fn gate_yield() {
     let g = GATE.with(|c| c.borrow().clone());
     if let Some((g, me)) = g {
         g.release(me, false);
+        // the hang backstop measures the time a caller RUNS, not the time it waits for its turn
+        crate::runner::watch_exempt();
         g.acquire(me);
+        crate::runner::touch();
     }
 }
 
